@@ -248,7 +248,7 @@ package parquet
 //@   ensures[C08] err == nil ==> srcPos >= old(srcPos) + pg.Size
 //@ loop (*OptionalField).DoRead#1
 //@   invariant[C08] srcPos == old(srcPos) + nRead
-//@   invariant (rfault ==> old(rfault)) && freshOrNil(out) && freshOrNil(sizes) && sameOrFresh(f.Defs) && sameOrFresh(f.Reps) && f.MaxLevels == old(f.MaxLevels)
+//@   invariant (rfault ==> old(rfault)) && freshOrNil(out) && freshOrNil(sizes) && sameOrFresh(f.Defs) && sameOrFresh(f.Reps) && f.MaxLevels == old(f.MaxLevels) && f.repeated == old(f.repeated)
 
 //@ func (*OptionalField).Values
 //@   modifies nothing
